@@ -91,7 +91,10 @@ CLAIMS = {
                 "else the first; a lone candidate is chosen; none -> InvalidBankCode), C12_invertible (every candidate lists the "
                 "bank code among its domestic bank codes and exists). On the bundled data: C12_candidates (candidates = non-empty "
                 "listed BICs, primaries first; unlisted -> InvalidBankCode) under the obligation that every registry BIC passes "
-                "the BIC model (vm_compute over all entries). IBAN-level bic/bank/bank names: correspondence over registry keys.",
+                "the BIC model (vm_compute over all entries). IBAN level, for any registry: C12_iban_bank (BBAN.bank is the first "
+                "entry the index holds under (country, bank-identifying field), None when there is none), C12_iban_bic (BBAN.bic "
+                "is BIC.from_bank_code on that field, None on a library error), C12_iban_unlisted; bank names stay in Python and "
+                "are compared through entry ids by correspondence over the registry keys.",
         "note": COMMON_NOTE + " Bank names stay in Python and are compared through entry ids.",
         "technique": "Coq proof (fold_left refinement of the index to a filter spec, list lemmas) + data obligation over all bank entries + correspondence",
         "design_ref": "DESIGN.md §4 C12",
